@@ -1251,6 +1251,15 @@ pub fn c15(seed: u64, budget: u64) -> FOut {
                 }
             }
             ledger.retain(|_, v| v.1 > 0);
+            // Down(own identity / previous identity) is re-enqueued with identical bytes by
+            // leave_cluster / change_identity: indistinguishable on the wire from the pending one,
+            // so entries of the own address are taken from the backlog as they are
+            for own in [pre.identity.a as u128, post.identity.a as u128] {
+                ledger.remove(&own);
+                if let Some((tx, a, d)) = post.updates.iter().find(|x| x.1 == own) {
+                    ledger.insert(*a, (d.clone(), *tx));
+                }
+            }
             // reconcile with the real backlog
             for (tx, a, d) in &post.updates {
                 match ledger.get(a) {
@@ -1498,4 +1507,17 @@ pub fn run(prop: &str, seed: u64, budget: u64) -> Option<FOut> {
         "C17" => Some(c17(seed, budget)),
         _ => None,
     }
+}
+
+/// debugging aid: print the calls of one history
+pub fn dump_history(hs: u64, sizes_idx: Option<u128>, maxtx: Option<u128>, filter: &str) {
+    history(hs, 300, |c, g| {
+        if let Some(s) = sizes_idx { c.max_packet_size = s; }
+        if let Some(m) = maxtx { c.max_transmissions = m; } else { c.max_transmissions = *g.pick(&[1u128, 2, 3, 10, 255]); }
+    }, |pre, input, effs, o, post, _rep| {
+        if input.kind().contains(filter) {
+            println!("INPUT {input:?}\n  pre.updates {:?}\n  cfg {:?}\n  effects {effs:?}\n  outcome {o:?}\n  post.updates {:?}", pre.updates, pre.cfg, post.updates);
+        }
+        true
+    });
 }
